@@ -17,10 +17,10 @@ CLAIMS = {
     "C06": dict(
         text="Verus proves that Simulation::run maps UnprocessedMessages to Deadlock exactly when an observed mailbox is non-empty, listing exactly the non-empty observers with name and size in registration order, and to MessageLoss otherwise, for every observer vector and executor result (unit sim); and that every model added through SimInit::add_model or BuildContext::add_submodel, to any depth, gets exactly one mailbox observer registered under its qualified name (unit reg). Kani proves Queue::len (the observed size) exact when quiescent.",
         note="that the count handed up by the executor equals sent minus received is decided only for the single-threaded executor and only within the bound of stand-in xexec (real ExecutorInner::run against scripted tasks, also nested); the counter moves in Sender::send / Receiver::recv are decided only within the bound of stand-in xchan; the multi-threaded executor's per-thread counters are not decided; ProtoModel::build touches the registries only through add_submodel (private fields); A-exec",
-        ref="DESIGN.md §5 C06", tech=TECH_VK),
+        ref="DESIGN.md §5 C06", tech=TECH_VK + "; bounded executable stand-ins (xreg: registration and reports; xexec: the single-threaded executor's count; xchan: the counter moves of send / recv), labelled bounded"),
     "C07": dict(
         text="Verus proves: PriorityQueue is FIFO among equal keys (pq); scheduling inserts exactly one entry keyed (deadline, origin) (sched); a step puts all live same-(time, origin) entries into one task in queue order (sim); SeqFuture polls its futures strictly in push order (seqfut).",
-        note="A-exec; origin ids of Scheduler/Context wrappers are not under contract; mailbox FIFO is C12",
+        note="A-exec; the origin of the Scheduler / Context wrappers is under contract (unit sched: the global origin constant resp. the model's own mailbox id) and, for the Scheduler handle, exercised by stand-in xsched; that mailbox ids of distinct models differ is an assumption (addresses of live allocations); mailbox FIFO is C12",
         ref="DESIGN.md §5 C07", tech=TECH_V + "; bounded executable stand-ins (xsim, xpq) as counterexample generators and fallback, labelled bounded"),
     "C08": dict(
         text="Verus proves for all five GlobalScheduler::schedule_*_from: accepted iff deadline > now (read inside the critical section) and period non-zero, rejection has no effect, acceptance queues exactly the request; and termination (decreases clauses) of every loop of the stepping functions (units sched, sim). Monitor pass (simmon, schedmon): with the queue and the time havocked at every lock acquisition, every critical section re-establishes `queue sorted, all deadlines > time, no zero period` and the time is only written under the queue lock and never decreases.",
@@ -37,7 +37,7 @@ CLAIMS = {
     "C11": dict(
         text="Verus proves the mapping of every ExecutorError value by Simulation::run (Timeout, Panic with model name and payload, NoRecipient for SendError payloads), that every fatal error sets the terminated flag, and that step/step_until/process on a terminated simulation return Terminated without moving the time or entering the executor (unit sim); the ModelId given to each model task indexes that model's own qualified name (unit reg).",
         note="that the executors produce the right ExecutorError is decided only for the single-threaded executor's run loop and only within the bound of stand-in xexec (panic precedence, model id, payload); the multi-threaded executor and the timeout thread are not decided; the executor stub may become unusable after a failed run (finding F6), so every public operation must check is_terminated before touching it",
-        ref="DESIGN.md §5 C11", tech=TECH_V + "; bounded executable stand-in (xsim) as counterexample generator and fallback, labelled bounded"),
+        ref="DESIGN.md §5 C11", tech=TECH_V + "; bounded executable stand-ins (xsim, xreg as counterexample generators and fallback; xexec for the single-threaded executor's report), labelled bounded"),
     "C12": dict(
         text="Kani proves, per capacity (1,2 quick; 1..5 thorough) and for every representation-invariant-satisfying state (any sequence count, fill level, open/closed) - i.e. for histories of any length - the sequential contracts of Queue::{push,pop + MessageBorrow::drop,close,len,next_queue_pos}: never more than capacity messages, FIFO, each message exactly once, len exact, Full only when full, after close pushes fail and accepted messages stay receivable. The concurrency half of the property (linearizability under multi-producer interleavings, no lost wake-ups in channel.rs) is NOT decided.",
         note="sequential execution only (Kani has no threads); capacities enumerated, not symbolic; compare_exchange_weak never fails spuriously. The async Sender::send / Receiver::recv paths and their wake-up pairing are decided only BOUNDED and only for cooperative schedules on one thread: stand-in xchan runs the real channel.rs + queue.rs (stub crates for async_event, diatomic_waker, recycle_box, crossbeam_utils) with two senders and the receiver under every schedule up to the bound - capacity, exactly-once in producer order, length, waiting tasks resumed, close; interleavings of threads inside one operation are not decided",
